@@ -349,7 +349,7 @@ def c19_r1(ctx):
     ctx.ok(f"{n_mod} generator modules scanned for reads of .ast_node / .extension_ast_nodes ({reads} found)")
 
 
-@rule("C19.R2", "schema text is independent of how definitions are split over files", min_instances=3, also=["C10"])
+@rule("C19.R2", "schema text is independent of how definitions are split over files", min_instances=3, also=["C10", "C16", "C02", "C17"])
 def c19_r2(ctx):
     repo = ctx.repo
     lf = repo.func("schema:load_graphql_files_from_path")
